@@ -83,8 +83,34 @@ impl Acc {
     }
 }
 
+/// The Reader's buffer size, measured black-box (the library is built exactly as shipped, without
+/// its `verif` feature): the length of the slice the first read call is offered.  Only used for
+/// aiming inputs at the buffer boundary; no oracle depends on it.
 pub fn buf_size() -> usize {
-    Reader::VERIF_BUF_SIZE
+    static SIZE: std::sync::OnceLock<usize> = std::sync::OnceLock::new();
+    *SIZE.get_or_init(|| {
+        struct Probe(std::rc::Rc<std::cell::Cell<usize>>);
+        impl std::io::Read for Probe {
+            fn read(&mut self, buf: &mut [u8]) -> std::io::Result<usize> {
+                if self.0.get() == 0 {
+                    self.0.set(buf.len());
+                }
+                Ok(0)
+            }
+        }
+        let seen = std::rc::Rc::new(std::cell::Cell::new(0usize));
+        let probe = Probe(seen.clone());
+        let measured = std::panic::catch_unwind(std::panic::AssertUnwindSafe(move || {
+            let mut r = Reader::new(Box::new(probe));
+            let _ = r.is_eof();
+        }));
+        let n = seen.get();
+        if measured.is_ok() && (64..=(1 << 24)).contains(&n) {
+            n
+        } else {
+            1 << 16
+        }
+    })
 }
 
 fn class_of(idx: u64, runs: u64, long: u64) -> SizeClass {
